@@ -28,6 +28,24 @@ func (p PacketForwardingRules) String() string {
 	return fmt.Sprintf("PDRs=%v, FARs=%v, QERs=%v", p.pdrs, p.fars, p.qers)
 }
 
+// clone returns a copy of the session that shares no rule storage with the original.
+func (s PFCPSession) clone() PFCPSession {
+	c := s
+	c.pdrs = make([]pdr, len(s.pdrs), cap(s.pdrs))
+	copy(c.pdrs, s.pdrs)
+
+	for i := range c.pdrs {
+		c.pdrs[i].qerIDList = append([]uint32(nil), s.pdrs[i].qerIDList...)
+	}
+
+	c.fars = make([]far, len(s.fars), cap(s.fars))
+	copy(c.fars, s.fars)
+	c.qers = make([]qer, len(s.qers), cap(s.qers))
+	copy(c.qers, s.qers)
+
+	return c
+}
+
 // NewPFCPSession allocates an session with ID.
 func (pConn *PFCPConn) NewPFCPSession(rseid uint64) (PFCPSession, bool) {
 	for i := 0; i < pConn.maxRetries; i++ {
